@@ -1,6 +1,7 @@
 SPECIFICATION Spec
 CONSTANTS
   Tier = "cov"
+INVARIANT FineCoding
 INVARIANT WellFormedCases
 INVARIANT ParserAgrees
 INVARIANT ImplIffValid
